@@ -125,6 +125,7 @@ def hs_tie(ctx, mdrv, runs):
     """Lean `handshake`/`frame` on the bytes the scripted broker delivered vs what the real connect_op did"""
     qs = []; meta = []
     for sc in runs:
+        if getattr(sc, "auth", False): continue          # the handshake model covers the path without authenticator
         for k, c in hs_cases(sc.tr).items():
             if c["outcome"] is None: continue
             rx = bytes(c["rx"])
